@@ -32,6 +32,9 @@ func mutateV1(a *v1ddb.AttributeValue) {
 	if a.BOOL != nil {
 		*a.BOOL = !*a.BOOL
 	}
+	if a.NULL != nil {
+		*a.NULL = !*a.NULL
+	}
 	for i, x := range a.L {
 		mutateV1(x)
 		a.L[i] = &v1ddb.AttributeValue{S: aws.String("REPLACED")}
@@ -89,6 +92,9 @@ func mutateCore(a *mtypes.Item) {
 	if a.BOOL != nil {
 		*a.BOOL = !*a.BOOL
 	}
+	if a.NULL != nil {
+		*a.NULL = !*a.NULL
+	}
 	for i, x := range a.L {
 		mutateCore(x)
 		a.L[i] = &mtypes.Item{S: aws.String("REPLACED")}
@@ -127,6 +133,8 @@ func mutateV2(a v2types.AttributeValue) {
 			x.Value[i] ^= 0xFF
 		}
 	case *v2types.AttributeValueMemberBOOL:
+		x.Value = !x.Value
+	case *v2types.AttributeValueMemberNULL:
 		x.Value = !x.Value
 	case *v2types.AttributeValueMemberL:
 		for i, y := range x.Value {
